@@ -18,7 +18,7 @@ import sys
 
 VERIF = os.path.dirname(os.path.dirname(os.path.abspath(__file__)))
 REPO = os.environ.get("VERIF_REPO", "/repo")
-BUILD = os.path.join(VERIF, ".build")
+BUILD = os.environ.get("VERIF_BUILD", os.path.join(VERIF, ".build"))
 HARNESS = os.path.join(VERIF, "harness", "verifh")
 MODCACHE = os.path.expanduser("~/go/pkg/mod")
 TAGS = "sqlite verif"
